@@ -60,6 +60,9 @@ pub enum Fault {
     Long { contract: CA, key: Key, extra: usize },
     /// F5: … return a hostile shape.
     Hostile { contract: CA, key: Key, shape: Shape },
+    /// F3 (device-wide): the device leaves out keys it has no value for instead of answering
+    /// with an empty value (some stores do): every answer may be shorter than requested.
+    Sparse,
 }
 
 #[derive(Default, Debug, Clone, Copy)]
@@ -242,6 +245,13 @@ impl SimState {
         let mut out = self.honest(c, key, n);
         for f in &self.inner.faults {
             match f {
+                Fault::Sparse => {
+                    let before = out.len();
+                    out.retain(|v| !v.is_empty());
+                    if out.len() != before {
+                        bump(|f| f.short += 1);
+                    }
+                }
                 Fault::Short {
                     contract,
                     key: fk,
